@@ -129,13 +129,19 @@ def run(ctx):
 
     c14.run(ctx.sub("DEP-C14"))
 
-    # ---- R3: junk never changes the counted set (C02's decision table)
+    entries_independent(ctx, "R3")
+
+
+def entries_independent(ctx, rule):
+    """every signature entry is counted or skipped on its own merits (C02's decision table): no
+    entry's fate depends on other entries or on the order of the map, no entry aborts the loop"""
+    eng = ctx.eng
     from .c02 import ATOMS, cube_of, justified_skip, spec
     from .vs import VSModel
 
     m = VSModel(eng)
     if m.loop_base != m.sigmap:
-        ctx.note("R3 not evaluated: verify_signable does not iterate the signature map (C02's decision table is undefined for this shape)")
+        ctx.note("%s not evaluated: verify_signable does not iterate the signature map (C02's decision table is undefined for this shape)" % rule)
         return
     unjust = 0
     for bp in m.body:
@@ -147,4 +153,4 @@ def run(ctx):
             unjust += 1
         if bp.outcome.startswith("count") and not _forced_count(cube, ATOMS, spec):
             unjust += 1  # counted although the specification does not require (allow) it
-    ctx.ob("R3", "entries-independent", fn_site(eng, m.sm).loc(), "each signature entry is counted or skipped on its own merits (%d loop-body paths, %d unjustified skips/aborts): removing non-counting entries cannot change the counted set" % (len(m.body), unjust), unjust == 0)
+    ctx.ob(rule, "entries-independent", fn_site(eng, m.sm).loc(), "each signature entry is counted or skipped on its own merits (%d loop-body paths, %d unjustified skips/aborts): removing non-counting entries cannot change the counted set" % (len(m.body), unjust), unjust == 0)
